@@ -1288,3 +1288,104 @@ func strictlyBelow(v ssa.Value, limit int64, pred, succ *ssa.BasicBlock) bool {
 	}
 	return false
 }
+
+// cd9OpenCursor: the function that opens a data file positions the write cursor at the physical end of the file and
+// nowhere else: block id = size / blockSize, in-block offset = size % blockSize for the size the back-end reports.
+// Any adjustment made at open time (say, stepping over a block tail too short for a header) without writing the bytes
+// it steps over makes the logical size differ from the physical size: the next record is reported at a position the
+// bytes are not at.
+func cd9OpenCursor(p *core.Prog, rep *core.Report, blockSize int64) {
+	rep.Rule("CD9", "opening cursor = physical size: in the function that constructs a DataFile, the values stored to the two fields Size() reads are quotient and remainder (or shift and mask) of one value by the block size, and that value is the size reported by the back-end; no phi (conditional adjustment) in between")
+	sizeFn := p.MustMethod(p.R.DataFile, "Size")
+	fields := map[*types.Var]bool{}
+	for _, b := range sizeFn.Blocks {
+		for _, in := range b.Instrs {
+			if u, ok := in.(*ssa.UnOp); ok {
+				if f, _ := core.LoadedField(u); f != nil && fieldOwner(p, f) == p.R.DataFile {
+					fields[f] = true
+				}
+			}
+		}
+	}
+	shift := int64(-1)
+	for s := int64(0); s < 40; s++ {
+		if int64(1)<<uint(s) == blockSize {
+			shift = s
+		}
+	}
+	n := 0
+	for _, fn := range p.LibFuncs() {
+		if core.RecvNamed(fn) != nil {
+			continue
+		}
+		var bad []string
+		var srcs []ssa.Value
+		kinds := map[string]bool{}
+		stores := 0
+		for _, b := range fn.Blocks {
+			for _, in := range b.Instrs {
+				f, base, val := core.StoreField(in)
+				if f == nil || !fields[f] || !freshInFn(base, fn) {
+					continue
+				}
+				stores++
+				v := val
+				for {
+					if c, ok := v.(*ssa.Convert); ok {
+						v = c.X
+						continue
+					}
+					break
+				}
+				bo, ok := v.(*ssa.BinOp)
+				if !ok {
+					bad = append(bad, fmt.Sprintf("DataFile.%s is stored at %s with %s (%T), not a quotient / remainder of the size by the block size", f.Name(), p.InstrPos(in), v.Name(), v))
+					continue
+				}
+				k, isC := constInt(bo.Y)
+				switch {
+				case bo.Op == token.QUO && isC && k == blockSize, bo.Op == token.SHR && isC && k == shift:
+					kinds["q"] = true
+				case bo.Op == token.REM && isC && k == blockSize, bo.Op == token.AND && isC && k == blockSize-1:
+					kinds["r"] = true
+				default:
+					bad = append(bad, fmt.Sprintf("DataFile.%s is stored at %s with an expression that is not size / blockSize or size %% blockSize", f.Name(), p.InstrPos(in)))
+					continue
+				}
+				srcs = append(srcs, bo.X)
+			}
+		}
+		if stores == 0 {
+			continue
+		}
+		n++
+		if len(bad) == 0 {
+			if !(kinds["q"] && kinds["r"]) {
+				bad = append(bad, "quotient and remainder are not both stored")
+			}
+			for _, s := range srcs {
+				if !sameOriginLoose(s, srcs[0]) {
+					bad = append(bad, "quotient and remainder are taken from different values")
+				}
+				fromBackend := false
+				for _, o := range core.Origins(s) {
+					if ex, ok := o.(*ssa.Extract); ok {
+						if c, ok := ex.Tuple.(*ssa.Call); ok && c.Common().IsInvoke() && c.Common().Method.Name() == "Size" {
+							fromBackend = true
+						}
+					}
+					if _, isPhi := o.(*ssa.Phi); isPhi {
+						bad = append(bad, "the size is conditionally adjusted before it is split")
+					}
+				}
+				if !fromBackend {
+					bad = append(bad, "the split value is not the size reported by the back-end")
+				}
+			}
+		}
+		rep.Check(len(bad) == 0, "CD9", "open-cursor:"+core.FuncKey(fn), "the cursor of a freshly opened file is the physical size split by the block size", p.Pos(fn.Pos()), strings.Join(sortedStr(bad), "; "), true)
+	}
+	if n == 0 {
+		rep.Unk("VAC", "CD9", "expected a constructor storing the cursor fields of a fresh DataFile", "", "found none")
+	}
+}
